@@ -746,6 +746,37 @@ theorem collectorLabels_nodup (s : Spec κ ν) (h : ColsDistinct s) : (collector
     List.perm_append_comm.trans (List.Perm.append_left _ List.perm_append_comm)
   exact p.nodup_iff.mp h
 
+/-- with injective get-item labels no two cells share a node … -/
+theorem labelsOk_true (s : Spec κ ν) (v : Valid s) (maps : List (Dict κ)) : labelsOk s maps = true := by
+  unfold labelsOk
+  rw [List.all_eq_true]
+  intro c _
+  rw [List.all_eq_true]
+  intro c' _
+  simp only [decide_eq_true_eq]
+  intro h
+  obtain ⟨h1, h2⟩ := v.labels c.1 c.2 c'.1 c'.2 h
+  exact Prod.ext h1 h2
+
+/-- … every lookup returns the cell's own node … -/
+theorem ownerOf_self (s : Spec κ ν) (v : Valid s) (maps : List (Dict κ)) (c : κ × Nat) : ownerOf s maps c = c := by
+  unfold ownerOf
+  cases h : (cellsOf maps).find? (fun c' => decide (s.itemLabel c'.1 c'.2 = s.itemLabel c.1 c.2)) with
+  | none => rfl
+  | some c' =>
+    have := List.find?_some h
+    simp only [decide_eq_true_eq] at this
+    obtain ⟨h1, h2⟩ := v.labels c'.1 c'.2 c.1 c.2 this
+    exact Prod.ext h1 h2
+
+/-- … and every row reads its OWN cells -/
+theorem wiresA_eq (s : Spec κ ν) (v : Valid s) (cur : Cur κ ν) (maps : List (Dict κ)) (m : Dict κ) :
+    wiresA s cur maps m = wires cur m := by
+  unfold wiresA wires
+  apply List.map_congr_left
+  intro kv _
+  rw [ownerOf_self s v maps kv]
+
 theorem listsClash_false (s : Spec κ ν) (v : Valid s) : listsClash s = false := by
   unfold listsClash
   simp [collectorLabels_nodup s v.cols]
@@ -1049,7 +1080,7 @@ theorem run_good (s : Spec κ ν) (st : St κ ν) (cur : Cur κ ν) (order : Lis
   unfold run
   rw [hmiss, ready_of_good s cur g]
   simp only [↓reduceIte, Bool.false_eq_true, indexMapsOf_good s cur v g, not_stranded s cur v g,
-    listsClash_false s v,
+    listsClash_false s v, labelsOk_true s v, Bool.not_true,
     Bool.and_false, evalOuts_ref s cur v g order hc, complete_refOuts, Bool.true_or, Bool.and_true]
 
 end RunGood
@@ -1210,7 +1241,7 @@ theorem run_inv (s : Spec κ ν) (st : St κ ν) (cur : Cur κ ν) (order : List
       · simp at h; exact g (h ▸ gc)
     unfold run
     rw [hhit']
-    simp only [Bool.false_eq_true, ↓reduceIte, listsClash_false s v]
+    simp only [Bool.false_eq_true, ↓reduceIte, listsClash_false s v, labelsOk_true s v, Bool.not_true]
     split
     · split
       · exact inv
@@ -1853,7 +1884,7 @@ theorem run_fail (s : Spec κ ν) (st : St κ ν) (cur : Cur κ ν) (order : Lis
   unfold run
   rw [hmiss, ready_of_good s cur g]
   simp only [↓reduceIte, Bool.false_eq_true, indexMapsOf_good s cur v g, not_stranded s cur v g,
-    listsClash_false s v, Bool.and_false, hinc, Bool.false_or]
+    listsClash_false s v, labelsOk_true s v, Bool.not_true, Bool.and_false, hinc, Bool.false_or]
 
 /-- with failures clearing the cache the invariant survives ANY run — also one in which body copies
 fail or never complete -/
